@@ -77,6 +77,18 @@ PROPS['C14'] = dict(level='proof', functions=ALL_CONTRACTED, kinds=('frame', 'fr
 PROPS['C04'] = dict(level='proof', functions=[ND + 'sample', LGM + 'LGANM.sample', 'sempler.noise.normal'], bounded=[], case_filter={LGM + 'LGANM.sample': {'population': False}}, design='DESIGN.md §4 C04', technique=TECH,
                     note=NOTE + ' The distributional reading (i.i.d. rows N(mean, cov), 1/sqrt(n) deviations, equality in law of ANM and LGANM) is A-RNG + L-GAUSS: assumed, not decided by this family; no statistical test is part of the proof.',
                     claim='finite samples are proved to be numpy\'s multivariate normal applied to exactly the population parameters: NormalDistribution.sample(n, rs) = mvn(state, self.mean, self.covariance, n) with the state reseeded iff a seed is given, and LGANM.sample(population=False) returns that draw for a distribution object that satisfies the same intervened structural equations as the population result (shape n x p); noise.normal uses standard deviation sqrt(var).')
+PROPS['C01']['bounded'] = ['vkb.c01']
+PROPS['C13']['bounded'] = ['vkb.c13']
+PROPS['C14']['bounded'] = ['vkb.c14']
+PROPS['C02'] = dict(level='exploration', functions=[U + 'topological_ordering', 'sempler.functions.null'], bounded=['vkb.c02'], design='DESIGN.md §4 C02', technique=TECH_B,
+                    note='ANM.sample itself is not yet under deductive contract (user callables and per-call draws need the ghost call log of DESIGN §C02); its rows are re-derived from logged draws on the enumerated domain. topological_ordering (the ordering ANM relies on) and functions.null are proved.',
+                    claim='every column of ANM.sample is recomputed independently from the logged noise / intervention draws and the assignment applied to the parents in increasing index order, for every DAG (0/1 and signed, incl. cancelling columns) up to the bound, every assignment of none/do/shift/noise/do+shift/do+noise to the nodes, non-symmetric assignments of all three result shapes, n in {0,1,5}; the constructor gate and copies are checked too.')
+PROPS['C17'] = dict(level='exploration', functions=[], bounded=['vkb.c17'], design='DESIGN.md §4 C17', technique=TECH_B,
+                    note='split_data is not yet under deductive contract (dict of lists of arrays, generator state threaded through two nested loops); decided on the enumerated domain only.',
+                    claim='split_data is run on unique-id data for all listed sizes x ratio vectors (fractions with denominators <= 10, up to 4 folds) x seeds: per-environment multiset partition, fold sizes round(n x ratio) with the last fold taking the rest, determinism in the seed, inputs untouched, ValueError exactly beyond 1e-6.')
+PROPS['C19'] = dict(level='exploration', functions=[], bounded=['vkb.c19'], design='DESIGN.md §4 C19', technique=TECH_B,
+                    note='sempler.semi / drf.code run against the deterministic stand-in backend /verif/fake_rpy2 (R itself is out of scope); pandas and the forest are external, so no deductive contract is attempted yet.',
+                    claim='DRFNet fitted through the stand-in backend: output shapes, values drawn from the observed values of the same variable and environment, independent bootstrap of source variables, the backend receives the synthetic parent columns in increasing index order and the forest fitted on exactly those parents, bit-identical repeats under a seed (0 included), documented TypeError/ValueError for invalid graph/data/n.')
 NOT_YET = {}
 
 GLOBAL_ASSUMPTIONS = [
